@@ -15,3 +15,5 @@ def run(ctx):
         ieee.run_c01_replace(ctx)      # float/double files through the portable IEEE serialisers (SFC_TEST_IEEE_FLOAT_REPLACE)
         from .. import alac           # CAF/ALAC: packet staging, pakt / kuki chunks, read / seek around the codec core (lean/SfModel/AlacFile.lean)
         alac.run(ctx, "C01", 96 if q else 960)
+        from .. import alaccore       # the ALAC codec CORE (lean/SfModel/AlacCore.lean …): library packets decoded by the model, escape packets re-encoded, hostile packets
+        alaccore.run(ctx, "C01", 60 if q else 900)
